@@ -318,6 +318,22 @@ pub fn examine(text: &str, target: Tgt, origin: &str, report: &mut Report) -> bo
             if !v[0].stages.is_empty() {
                 report.count("no-pipeline-mode:reports-stages");
             }
+            // no pipeline is selected in this mode: every definition is an "other" pipeline, and the result is the same with all
+            // of them blanked out
+            if n > 0 {
+                let bare = without_others(text, &blocks, None);
+                match run(&bare, Mode::NoPipeline, report) {
+                    Outcome::Ok(w) if w.len() == 1 => match differing_field(&v[0], &w[0]) {
+                        None => report.count("no-pipeline-mode:same-without-the-definitions"),
+                        Some((field, with, without)) => report.violation(
+                            &format!("no-pipeline-mode-depends-on-definitions:{}:{}", field, family(target)),
+                            &format!("{}: the no-pipeline result differs in its {} when the {} pipeline definitions of the file are removed: `{}` with them, `{}` without", tname, field, n, with.chars().take(160).collect::<String>(), without.chars().take(160).collect::<String>()),
+                            case.witness(Json::obj().set("field", field).set("with_definitions", with).set("without_definitions", without)),
+                        ),
+                    },
+                    other => report.count(&format!("skipped:no-pipeline-mode-without-definitions:{}", other.class())),
+                }
+            }
         }
         Outcome::Ok(v) => report.violation(
             "no-pipeline-mode-result-count",
